@@ -43,7 +43,7 @@ Verdict(r) ==
               THEN IF r.d2 = "tuple" THEN "C40:numpy-scalar-in-tuple-not-plain" ELSE "C40:numpy-scalar-not-plain"
               ELSE "C40:not-plain:" \o r.d1 \o "-in-" \o r.d2
          [] r.oc = "differs" ->
-              IF r.d1 = "array-not-restored" \/ (r.d1 = "value-differs" /\ r.abs /\ HasAliasArray(r.T))
+              IF r.d1 \in {"array-not-restored", "value-differs"} /\ r.abs /\ HasAliasArray(r.T)
               THEN "C40:array-annotation-not-loadable" ELSE "C40:" \o r.d1
          [] r.oc = "load-failed" /\ r.abs /\ r.d1 \in {"AttributeError", "TypeError"} /\ HasAliasArray(r.T) ->
               "C40:array-annotation-not-loadable"
